@@ -1,24 +1,35 @@
 (** src/cli.rs resynth(): the loop over the input files named on the command line.
 
     For each input path, in order: the output path is taken from -o or computed from the input's
-    file stem and --out-dir; process_file runs with a fresh Lexer, Parser, Program and PcapWriter
-    (Interp/Cli.v, Interp/Run.v: [run_src]); on success a line "<in> -> <out> ok" is printed; on an error
-    a diagnostic line "<in>:<line>:<col>: error: process_file: <error>" is printed, the output file is
-    removed unless --keep, the exit status becomes failure, and the loop CONTINUES with the next input.
-    A panic aborts the process: nothing after it runs.
+    file stem and --out-dir (an input without a file name -- "..", "/", "" -- is refused: "not a file
+    name"); an input whose output path was already used by an earlier input of this invocation is
+    refused BEFORE it is compiled: "output file <out> is already used by another input", the earlier
+    output is neither overwritten nor removed; otherwise the path is recorded and process_file runs
+    with a fresh Lexer, Parser, Program and PcapWriter (Interp/Cli.v, Interp/Run.v: [run_src]); on
+    success a line "<in> -> <out> ok" is printed; on an error a diagnostic line
+    "<in>:<line>:<col>: error: process_file: <error>" is printed, the output file is removed unless
+    --keep.  Every refusal or error sets the exit status to failure and the loop CONTINUES with the
+    next input.  A panic aborts the process: nothing after it runs.
 
     The loop threads an explicit accumulator: exit status so far, the reports (what was printed, per
-    input), the contents of the output paths, and whether the process has aborted.  Nothing else
-    survives from one input to the next.  No proofs in this file; see Proofs/C13/BatchProofs.v. *)
+    input), the contents of the output paths, the output paths used so far, and whether the process
+    has aborted.  Nothing else survives from one input to the next.  No proofs in this file; see
+    Proofs/C13/BatchProofs.v. *)
 From RS Require Import Base.Bytes Base.Outcome Bind.Types Lex.Tokens Interp.Run.
 
 Inductive exit_status := ExitSuccess | ExitFailure.
 
-(** one input: the path as given, the output path chosen for it, the bytes of the file *)
-Record input := { in_path : string; in_out : string; in_src : bytes }.
+(** one input: the path as given, the output path chosen for it ([None]: the path has no file
+    name to derive one from), the bytes of the file *)
+Record input := { in_path : string; in_out : option string; in_src : bytes }.
 
-(** what is printed for one input is determined by the two paths and the result of process_file *)
-Record report := { rp_in : string; rp_out : string; rp_result : run_result }.
+(** what happened to one input; the line(s) printed for it are determined by this and the paths *)
+Inductive verdict :=
+| Compiled (r : run_result)            (* process_file ran: "-> ok", or the diagnostic of its error *)
+| RefusedNoName                        (* "<in>: error: process_file: not a file name" *)
+| RefusedOutputUsed (out : string).    (* "<in>: error: process_file: output file <out> is already used by another input" *)
+
+Record report := { rp_in : string; rp_verdict : verdict }.
 
 (** contents of an output path: a whole file, or whatever a process that died had flushed *)
 Inductive content := Whole (b : bytes) | Torn.
@@ -33,32 +44,47 @@ Record batch_state := {
   b_status : exit_status;
   b_reports : list report;         (* in the order printed *)
   b_fs : fs;
+  b_used : list string;            (* `outputs`: the output paths of the inputs compiled so far *)
   b_aborted : option string        (* the panic site, once the process has died *)
 }.
 
 Definition batch_init (f : fs) : batch_state :=
-  {| b_status := ExitSuccess; b_reports := []; b_fs := f; b_aborted := None |}.
+  {| b_status := ExitSuccess; b_reports := []; b_fs := f; b_used := []; b_aborted := None |}.
 
+Definition used (out : string) (l : list string) : bool := existsb (String.eqb out) l.
+
+(** the report of an input that is compiled *)
 Definition report_of (files : list (bytes * bytes)) (i : input) : report :=
-  {| rp_in := in_path i; rp_out := in_out i; rp_result := run_src files (in_src i) |}.
+  {| rp_in := in_path i; rp_verdict := Compiled (run_src files (in_src i)) |}.
+
+Definition refuse (st : batch_state) (i : input) (v : verdict) : batch_state :=
+  {| b_status := ExitFailure; b_reports := b_reports st ++ [{| rp_in := in_path i; rp_verdict := v |}];
+     b_fs := b_fs st; b_used := b_used st; b_aborted := None |}.
 
 (** the body of `for (i, input) in in_args.enumerate()` *)
 Definition batch_step (keep : bool) (files : list (bytes * bytes)) (st : batch_state) (i : input) : batch_state :=
   match b_aborted st with
   | Some _ => st
   | None =>
-    let rp := report_of files i in
-    match rp_result rp with
-    | RunOk pcap _ _ =>
-      {| b_status := b_status st; b_reports := b_reports st ++ [rp];
-         b_fs := fs_write (in_out i) (Whole pcap) (b_fs st); b_aborted := None |}
-    | RunErr _ _ partial =>
-      {| b_status := ExitFailure; b_reports := b_reports st ++ [rp];
-         b_fs := if keep then fs_write (in_out i) (Whole partial) (b_fs st) else fs_remove (in_out i) (b_fs st);
-         b_aborted := None |}
-    | RunPanic site =>
-      {| b_status := ExitFailure; b_reports := b_reports st ++ [rp];
-         b_fs := fs_write (in_out i) Torn (b_fs st); b_aborted := Some site |}
+    match in_out i with
+    | None => refuse st i RefusedNoName
+    | Some out =>
+      if used out (b_used st) then refuse st i (RefusedOutputUsed out)
+      else
+        let rp := report_of files i in
+        let us := b_used st ++ [out] in
+        match run_src files (in_src i) with
+        | RunOk pcap _ _ =>
+          {| b_status := b_status st; b_reports := b_reports st ++ [rp];
+             b_fs := fs_write out (Whole pcap) (b_fs st); b_used := us; b_aborted := None |}
+        | RunErr _ _ partial =>
+          {| b_status := ExitFailure; b_reports := b_reports st ++ [rp];
+             b_fs := if keep then fs_write out (Whole partial) (b_fs st) else fs_remove out (b_fs st);
+             b_used := us; b_aborted := None |}
+        | RunPanic site =>
+          {| b_status := ExitFailure; b_reports := b_reports st ++ [rp];
+             b_fs := fs_write out Torn (b_fs st); b_used := us; b_aborted := Some site |}
+        end
     end
   end.
 
